@@ -22,14 +22,19 @@ type Config struct {
 	GapScale  int
 	Polling   bool
 	AltScreen bool
-	Locale    string // value for LC_ALL ("" = en_US.UTF-8)
+	Locale    string // the locale ("" = en_US.UTF-8)
+	// LocaleVia: which POSIX variable carries it.  0: LC_ALL; 1: LC_CTYPE
+	// (LC_ALL unset); 2: LANG (LC_ALL, LC_CTYPE unset); 3: LC_CTYPE with
+	// LC_ALL set but empty; 4: LANG with LC_ALL and LC_CTYPE set but empty
+	// (an empty value counts as unset).
+	LocaleVia int
 	MapMode   int
 	MapSeed   uint64
 }
 
 func (c Config) String() string {
-	return fmt.Sprintf("term=%s tc=%v %dx%d go123=%v gap=%d polling=%v alt=%v lc=%q map=%d",
-		c.Term, c.TrueColor, c.W, c.H, c.Go123, c.GapScale, c.Polling, c.AltScreen, c.Locale, c.MapMode)
+	return fmt.Sprintf("term=%s tc=%v %dx%d go123=%v gap=%d polling=%v alt=%v lc=%q via=%d map=%d",
+		c.Term, c.TrueColor, c.W, c.H, c.Go123, c.GapScale, c.Polling, c.AltScreen, c.Locale, c.LocaleVia, c.MapMode)
 }
 
 // DrawConfig draws a configuration; terms lists candidate entry names.
@@ -71,7 +76,26 @@ func NewWorld(cfg Config, ch *simrt.Chooser) (*World, error) {
 	if lc == "" {
 		lc = "en_US.UTF-8"
 	}
-	os.Setenv("LC_ALL", lc)
+	os.Unsetenv("LC_ALL")
+	os.Unsetenv("LC_CTYPE")
+	os.Unsetenv("LANG")
+	switch cfg.LocaleVia {
+	case 1:
+		os.Setenv("LC_CTYPE", lc)
+	case 2:
+		os.Setenv("LANG", lc)
+	case 3:
+		os.Setenv("LC_ALL", "")
+		os.Setenv("LC_CTYPE", lc)
+		os.Setenv("LANG", "en_US.UTF-8")
+	case 4:
+		os.Setenv("LC_ALL", "")
+		os.Setenv("LC_CTYPE", "")
+		os.Setenv("LANG", lc)
+	default:
+		os.Setenv("LC_ALL", lc)
+		os.Setenv("LANG", "C")
+	}
 	os.Unsetenv("LINES")
 	os.Unsetenv("COLUMNS")
 	os.Unsetenv("COLORTERM")
